@@ -1,0 +1,29 @@
+//go:build verif
+
+package proxy
+
+import (
+	"github.com/robinbraemer/event"
+
+	"go.minekube.com/gate/pkg/edition/java/proxy/internal/resourcepack"
+)
+
+// Exports for the external verification harness of the resource pack handlers (C27).
+// The resourcepack package is internal to package proxy, so the harness reaches it
+// through these aliases and this constructor. No logic lives here.
+
+type (
+	// VerifResourcePackHandler is resourcepack.Handler.
+	VerifResourcePackHandler = resourcepack.Handler
+	// VerifResourcePackPlayer is resourcepack.Player (the interface a fake player implements).
+	VerifResourcePackPlayer = resourcepack.Player
+	// VerifResourcePackResponseBundle is resourcepack.ResponseBundle.
+	VerifResourcePackResponseBundle = resourcepack.ResponseBundle
+	// VerifBundleDelimiterHandler is resourcepack.BundleDelimiterHandler.
+	VerifBundleDelimiterHandler = resourcepack.BundleDelimiterHandler
+)
+
+// VerifNewResourcePackHandler is resourcepack.NewHandler: the handler for the player's protocol.
+func VerifNewResourcePackHandler(player resourcepack.Player, eventMgr event.Manager) resourcepack.Handler {
+	return resourcepack.NewHandler(player, eventMgr)
+}
